@@ -61,6 +61,14 @@ type Plan struct {
 	// AllowUncleanRestart lets a plan Start an election object again after a stop call that returned while
 	// the object's goroutines were still running (regression plans of the known WaitGroup-reuse finding).
 	AllowUncleanRestart bool `json:"allow_unclean_restart,omitempty"` // (default behaviour now; kept for old replay files)
+	// LogRules: actions fired at the library's own log lines (every significant step of the library logs, so
+	// this places stops, restarts, notifications ... between any two steps, also inside its critical
+	// sections).
+	LogRules []LogRule `json:"log_rules,omitempty"`
+	// Yields: at the k-th call of a library goroutine into the logger or the metrics recorder the harness
+	// yields the processor Yields[k % len] times (runtime.Gosched): other runnable goroutines get to run at
+	// that point, which permutes the order of steps that fall into the same virtual instant.
+	Yields []uint8 `json:"yields,omitempty"`
 	// PlainDelete: the store offered to the elections has no revision-checked delete (a custom KeyValue
 	// implementation); the library's DeleteKey shutdown then looks and deletes in two steps.
 	PlainDelete bool `json:"plain_delete,omitempty"`
@@ -220,3 +228,26 @@ func (p *Plan) StoreTTL() time.Duration {
 	}
 	return p.TTL + p.ExpirySlack
 }
+
+// LogRule: when instance Inst logs message Msg for the N-th time (0-based), fire Action and yield the
+// processor so that the action runs right there - to completion, or until it needs a lock the logging
+// goroutine holds. (The logger cannot take virtual time instead: a goroutine waiting for a sync.Mutex is not
+// durably blocked, so the bubble's clock would stand still while the action waits for the election mutex.)
+type LogRule struct {
+	Inst   int    `json:"inst"`
+	Msg    string `json:"msg"`
+	N      int    `json:"n"`
+	Action Action `json:"action"`
+}
+
+// LogMessages: the messages the library logs (dictionary for generated LogRules).
+var LogMessages = []string{"acquire_success", "acquire_failed", "acquire_retry", "acquire_failed_max_retries", "attempting_acquire_with_retry",
+	"state_transition", "leader_promoted", "leader_demoted", "election_started", "election_stopped", "watch_started", "watch_failed",
+	"watch_event_key_empty", "watch_event_key_deleted", "watch_closed", "leader_changed", "leader_changed_periodic_check",
+	"key_not_found_triggering_reelection", "key_empty_triggering_reelection", "leadership_lost_via_watcher", "leadership_taken_over",
+	"priority_takeover_opportunity", "priority_takeover_success", "priority_takeover_failed", "heartbeat_failed", "heartbeat_recovered",
+	"health_check_failed", "health_check_recovered", "token_validation_failed", "token_validation_recovered",
+	"demoting_due_to_heartbeat_failure", "demoting_due_to_validation_failure", "demoting_due_to_health_check_failure",
+	"demoting_due_to_connection_loss", "demoting_due_to_reconnect_verification_failure", "connection_disconnected", "connection_reconnected",
+	"connection_reconnected_before_grace_period", "verifying_leadership_after_reconnect", "reconnect_verification_success",
+	"reconnect_verification_failed", "key_deleted", "key_deletion_failed", "shutdown_timeout", "shutdown_cancelled"}
